@@ -324,6 +324,11 @@ func (d *tDecoder) decodeType(t *tType, b []byte, p unsafe.Pointer, maxdepth int
 				}
 			}
 			tmp = vp
+			if vt.T == tSTRUCT && !vt.IsPointer {
+				// struct (not pointer) values are decoded in place into the reused tmp var,
+				// clear it or fields absent from this entry would keep values of a previous entry or call.
+				v.SetZero()
+			}
 			if vt.IsPointer { // tmp = &sliceV[j]
 				if j != 0 { // next
 					sliceV = unsafe.Add(sliceV, vt.V.Size)
